@@ -83,8 +83,20 @@ func TestVerifC41(t *testing.T) {
 	leafDER, leafKey := c41Cert(t, "rsa", ca, caKey, false, future, "localhost")
 	servers = append(servers, &c41Server{name: "chain-leaf-first", chain: ctls.Certificate{Certificate: [][]byte{leafDER, caDER}, PrivateKey: leafKey}, leaf: c41FP(leafDER), other: []string{c41FP(caDER)}})
 
+	// the same kinds of servers limited to TLS 1.2 (session tickets are part of the handshake there)
+	for _, s0 := range append([]*c41Server(nil), servers...) {
+		if len(servers) < 12 {
+			c := *s0
+			c.name += "-tls12"
+			servers = append(servers, &c)
+		}
+	}
 	for _, s := range servers {
-		ln, err := ctls.Listen("tcp", "127.0.0.1:0", &ctls.Config{Certificates: []ctls.Certificate{s.chain}})
+		scfg := &ctls.Config{Certificates: []ctls.Certificate{s.chain}}
+		if strings.HasSuffix(s.name, "-tls12") {
+			scfg.MaxVersion = ctls.VersionTLS12
+		}
+		ln, err := ctls.Listen("tcp", "127.0.0.1:0", scfg)
 		if err != nil {
 			t.Fatal(err)
 		}
@@ -176,6 +188,10 @@ func TestVerifC41(t *testing.T) {
 		conn, err := ctls.DialWithDialer(d, "tcp", s.addr, cfg)
 		ok := err == nil
 		if conn != nil {
+			// let the client take the session tickets the server sends after the handshake (TLS 1.3): a later connection
+			// to the same server may then try to resume the session, and must be pinned all the same
+			conn.SetReadDeadline(time.Now().Add(25 * time.Millisecond)) //nolint:errcheck
+			conn.Read(make([]byte, 1))                                   //nolint:errcheck
 			conn.Close()
 		}
 		r.Eval(s.name + "|" + kind + "|" + fp)
@@ -187,6 +203,6 @@ func TestVerifC41(t *testing.T) {
 			r.Violation(fmt.Sprintf("pinning:%s:connected=%v", kind, ok), fmt.Sprintf("server %s (leaf sha256 %s), fingerprint %q (%s): connected=%v, expected %v (err=%v)", s.name, s.leaf, fp, kind, ok, want, err), map[string]any{"server": s.name, "fingerprint": fp})
 		}
 	}
-	r.Finish("real TLS handshakes from MakeConfig(fp) clients to harness TLS servers (self-signed RSA / ECDSA / Ed25519, expired, wrong host name, chain with the leaf first + intermediate CA) x fingerprint variants (exact lower / upper / mixed case, one nibble flipped, last nibble, truncated, padded, prefix + garbage, another certificate's, the intermediate's, colon-separated, surrounded by spaces, empty = normal verification). Oracle: connected <=> fingerprint equals hex(sha256(leaf DER)) ignoring case. non-trivial = distinct (server, variant, fingerprint)",
+	r.Finish("real TLS handshakes from MakeConfig(fp) clients to harness TLS servers (self-signed RSA / ECDSA / Ed25519, expired, wrong host name, chain with the leaf first + intermediate CA) x fingerprint variants (exact lower / upper / mixed case, one nibble flipped, last nibble, truncated, padded, prefix + garbage, another certificate's, the intermediate's, colon-separated, surrounded by spaces, empty = normal verification). Every server also exists limited to TLS 1.2, connections to a server follow each other in random order (right then wrong fingerprint, and the reverse) and the client takes the session tickets it is sent, so that later connections may try to resume. Oracle: connected <=> fingerprint equals hex(sha256(leaf DER)) ignoring case. non-trivial = distinct (server, variant, fingerprint)",
 		"certificates are generated per run; 'empty' must fail because none of the harness certificates chains to a system root")
 }
